@@ -1295,8 +1295,25 @@ fn verify_alias_closure(final_sql: &str) -> Result<()> {
     // generated aliases, the partial table name, and quoted output labels.
     let mut ident = String::new();
     let mut in_quotes = false;
+    let mut in_string = false;
     let mut chars = text.chars().peekable();
     while let Some(c) = chars.next() {
+        // A string literal is data, not an identifier ('' inside a literal
+        // closes and reopens it, which comes to the same).
+        if in_string {
+            if c == '\'' {
+                in_string = false;
+            }
+            continue;
+        }
+        if c == '\'' && !in_quotes {
+            let done = std::mem::take(&mut ident);
+            if !done.is_empty() {
+                check_identifier(&done, final_sql)?;
+            }
+            in_string = true;
+            continue;
+        }
         if c == '"' {
             in_quotes = !in_quotes;
             continue;
